@@ -594,8 +594,9 @@ def run(run: Run):
     run.floor('C16.R7', 2)
     run.floor('C16.R6', 50)
     run.floor('C16.R1', 12)
-    run.floor('C16.R2', 6)
+    if not run.extra.get('c16_structural_skipped'):
+        run.floor('C16.R2', 6)
+        run.floor('C16.R5', 6)
     run.floor('C16.R3', 3)
     run.floor('C16.R4', 3)
-    run.floor('C16.R5', 6)
     return INFO
